@@ -391,6 +391,39 @@ func runC05(c *Ctx) error {
 			return err
 		}
 	}
+	// reorganisations of more than 500 headers (demotion and promotion are ONE transaction each however long the
+	// branch is): killed / failing at each transaction boundary of the triggering submission
+	for hi, h := range LongReorgHistories(c.Thorough()) {
+		h.X = nil
+		// the submission that moves the most headers: the first whose parent is neither the previous submission nor absent
+		trig := -1
+		for i := 1; i < len(h.Subs); i++ {
+			if h.Subs[i].Prev != h.Subs[i-1].ID {
+				trig = i
+				break
+			}
+		}
+		isL1 := trig >= 0 && h.Subs[trig].Bits == bitsMain
+		// quick: the one-header takeovers only (the model of the 500-header branch overtake costs 10 s a case); never the orphan flood
+		if trig < 0 || hi == len(LongReorgHistories(c.Thorough()))-1 || !isL1 && !c.Thorough() {
+			continue
+		}
+		if h.Subs[trig].Bits == bitsW2 {
+			// branch b of L2: the reorganisation happens at its LAST header
+			for trig+1 < len(h.Subs) && h.Subs[trig+1].Prev == h.Subs[trig].ID {
+				trig++
+			}
+		}
+		h.Subs = h.Subs[:trig+1]
+		for _, mk := range []struct {
+			mode string
+			k    int
+		}{{"ckill", 1}, {"ckill", 2}, {"cfault", 1}, {"kill", 1}} {
+			if _, err := doCase(h, mk.mode, trig, mk.k, "long-reorg"); err != nil {
+				return err
+			}
+		}
+	}
 	// bounded-exhaustive reorganisation shapes: all trees over n headers x work {2,4} x arrival orders, every (i,k), kill
 	budget := c.Pick(1400, 40000)
 	var eerr error
